@@ -529,6 +529,17 @@ func c04StoreFn(c *Ctx, k *core, f *ssa.Function) {
 			if !ok {
 				return false
 			}
+			if rh, call := k.rejectCall(i); rh != nil {
+				// a summarised reject helper: submits {err: its error argument, View(), its *T argument}
+				if call.Call.Args[rh.errP] == rj.errV {
+					if rh.newP < 0 {
+						return true
+					}
+					nv := call.Call.Args[rh.newP]
+					return isNilConst(nv) || derivesAll(nv, isRes, nil)
+				}
+				return false
+			}
 			for _, a := range ci.Call.Args {
 				al := allocOf(a)
 				if al == nil || litTypeName(al) != ".watchErrorEvent" {
@@ -556,6 +567,9 @@ func c04StoreFn(c *Ctx, k *core, f *ssa.Function) {
 		}
 		// reply: every path to return on which installed != nil sends errV
 		isReply := func(i ssa.Instruction) bool {
+			if rh, call := k.rejectCall(i); rh != nil {
+				return call.Call.Args[rh.errP] == rj.errV
+			}
 			s, ok := i.(*ssa.Send)
 			return ok && isErrorChan(s.Chan.Type()) && s.X == rj.errV
 		}
